@@ -139,7 +139,13 @@ def rule_b(ctx: Context, R: Reporter, hc: ClassInfo):
     R.floor("C15.b", "accepted-split assignments", n, 1)
     # min_points default: the attribute or 2 * n_features
     mp = [d for ds in flow.defs_at.values() for d in ds if d.name == "min_points" and d.kind == "assign"]
-    R.check("C15.b", "min_points is the configured value or 2 * n_features", len(mp) == 1 and isinstance(mp[0].value, ast.IfExp), fit, mp[0].stmt if mp else fit.node,
+    mp_ok = len(mp) == 1 and isinstance(mp[0].value, ast.IfExp)
+    if len(mp) == 2:
+        # the statement form: if <none test>: min_points = a / else: min_points = b
+        for x in ast.walk(fit.node):
+            if isinstance(x, ast.If) and len(x.body) == 1 and len(x.orelse) == 1 and {id(x.body[0]), id(x.orelse[0])} == {id(mp[0].stmt), id(mp[1].stmt)}:
+                mp_ok = True
+    R.check("C15.b", "min_points is the configured value or 2 * n_features", mp_ok, fit, mp[0].stmt if mp else fit.node,
             msg=f"{fit.short}: min_points defined by {[unparse(d.stmt) for d in mp]}", key="min-points-def")
 
 
